@@ -2,6 +2,7 @@ import Gossamer.Base.Proto
 import Gossamer.Model.C20
 import Gossamer.Lib.C20Spec
 import Gossamer.Lib.C20Bitfield
+import Gossamer.Lib.C20GraphRound
 open Gossamer Gossamer.C20
 
 /- line:   `t=<parents,> w=<weights,> h=<names> b=<baseNumber>|<op>;<op>;…`
@@ -9,7 +10,8 @@ open Gossamer Gossamer.C20
             (voter ≥ #voters = not a voter; block = #blocks = a block outside the chain)
            `const threshold <total>`
    output: one entry per op joined by `;`, then ` w=<curPv>,<eqPv>,<curPc>,<eqPc> t=<thr> G<pcghost>`
-            import entry = `<res>:<ghost>,<finalized>,<estimate>,<completable>`   (`~` when the prevote
+            import entry = `<res>:<ghost>,<finalized>,<estimate>,<completable>@<dump of the vote graph>`
+            (dump = entries `<block>:<number>:<ancestors>:<descendants>:<set bits>` joined by `/`, then `^<heads>`)   (`~` when the prevote
             phase is intolerant: the GHOST is then not unique), `g` entry = `G<precommit ghost>` (`G~` when the
             precommit phase is intolerant).
            `spec=` is printed when the paper definitions over the imported votes give another trace; no claim
@@ -44,8 +46,29 @@ def parseOp? (s : String) : Option Cmd :=
     | _, _, _, _ => none
   | _ => none
 
+
+def showHN (t : Tree) : Option (Nat × Nat) → String
+  | none => "-"
+  | some (h, n) => if n = t.num h then toString h else s!"{h}#{n}!"
+
+def showStateC (t : Tree) (r : RoundC) : String :=
+  s!"{showHN t r.ghost},{showHN t r.fin},{showHN t r.est},{if r.compl then "T" else "F"}"
+
+def dotList (l : List Nat) : String := if l.isEmpty then "-" else ".".intercalate (l.map toString)
+
+def maskBits (m : Nat) (n : Nat) : List Nat := (List.range n).filter (fun i => m.testBit i)
+
+/-- dump of the compressed graph: entries by block index, then the heads -/
+def dumpGraph (t : Tree) (nbits : Nat) (g : Graph) : String :=
+  let ents := (List.range t.size).filterMap (fun b =>
+    match g.entries b with
+    | none => none
+    | some e => some s!"{b}:{e.number}:{dotList e.ancestors}:{dotList e.descendants}:{dotList (maskBits e.cum nbits)}")
+  "/".intercalate ents ++ "^" ++ dotList ((List.range t.size).filter (fun b => g.heads.contains b))
+
 structure TraceAcc where
   r : Round
+  rc : RoundC
   seen : List Op          -- imported so far (spec side)
   mout : List String      -- model entries (reversed)
   sout : List String      -- spec entries (reversed)
@@ -53,36 +76,45 @@ structure TraceAcc where
 
 def modelIntol (ws : List Nat) (r : Round) (ph : Bool) : Bool := decide (maskWeight ws r.eqv (phN ph) > faulty ws)
 
-def stepCmd (t : Tree) (ws : List Nat) (a : TraceAcc) (c : Cmd) : TraceAcc :=
+def stepCmd (key : Nat → Nat) (t : Tree) (ws : List Nat) (a : TraceAcc) (c : Cmd) : TraceAcc :=
   match c with
   | .g =>
     let r := precommitGhost t ws a.r
-    let m := if modelIntol ws r true then "G~" else "G" ++ showOpt r.pcGhost
+    let rc := precommitGhostC key t ws a.rc
+    let m := if modelIntol ws r true then "G~" else "G" ++ showHN t rc.pcGhost ++
+      (if showHN t rc.pcGhost == showOpt r.pcGhost then "" else "!ref" ++ showOpt r.pcGhost)
     let s := if !tolerant ws a.seen true then "G~" else "G" ++ showOpt (specGhost t ws a.seen true)
-    { a with r := r, mout := m :: a.mout, sout := s :: a.sout }
+    { a with r := r, rc := rc, mout := m :: a.mout, sout := s :: a.sout }
   | .imp o =>
     let (res, r) := importVote t ws a.r o.ph o.v o.sv
+    let (_, rc) := importVoteC key t ws a.rc o.ph o.v o.sv
     let seen := a.seen ++ [o]
-    let m := showRes res ++ ":" ++
-      (if modelIntol ws r false then "~" else showState r.ghost r.fin r.est r.compl)
+    let dump := "@" ++ dumpGraph t (2 * ws.length) rc.graph
+    let stU := showState r.ghost r.fin r.est r.compl
+    let stC := showStateC t rc
+    let m0 := showRes res ++ ":" ++
+      (if modelIntol ws r false then "~" else stC ++ (if stC == stU then "" else "!ref" ++ stU))
+    let m := m0 ++ dump
     let s := if !tolerant ws seen true then m else showRes res ++ ":" ++
       (if !tolerant ws seen false then "~" else
         showState (specGhost t ws seen false) (specFinalized t ws seen) (specEstimate t ws seen)
-          (specCompletable t ws seen))
+          (specCompletable t ws seen)) ++ dump
     let kf := match a.kf with
       | some k => some k
       | none => if m == s then none
                 else if 2 * faulty ws < voteWeight ws seen true ∧ voteWeight ws seen true < threshold (total ws)
                   then some "estimate-shortcut-below-threshold"
                 else some "none"
-    { r := r, seen := seen, mout := m :: a.mout, sout := s :: a.sout, kf := kf }
+    { r := r, rc := rc, seen := seen, mout := m :: a.mout, sout := s :: a.sout, kf := kf }
 
-def runCase (t : Tree) (ws : List Nat) (cmds : List Cmd) : String :=
-  let a := cmds.foldl (stepCmd t ws) ⟨Round.init, [], [], [], none⟩
+def runCase (key : Nat → Nat) (t : Tree) (ws : List Nat) (cmds : List Cmd) : String :=
+  let a := cmds.foldl (stepCmd key t ws) ⟨Round.init, RoundC.init, [], [], [], none⟩
   let rF := precommitGhost t ws a.r
+  let rcF := precommitGhostC key t ws a.rc
   let thr := threshold (total ws)
   let mtail := s!" w={a.r.cur false},{maskWeight ws a.r.eqv 0},{a.r.cur true},{maskWeight ws a.r.eqv 1} t={thr} " ++
-    (if modelIntol ws rF true then "G~" else "G" ++ showOpt rF.pcGhost)
+    (if modelIntol ws rF true then "G~" else "G" ++ showHN t rcF.pcGhost ++
+      (if showHN t rcF.pcGhost == showOpt rF.pcGhost then "" else "!ref" ++ showOpt rF.pcGhost))
   let stail := s!" w={voteWeight ws a.seen false},{equivWeight ws a.seen false},{voteWeight ws a.seen true},{equivWeight ws a.seen true} t={thr} " ++
     (if !tolerant ws a.seen true then "G~" else "G" ++ showOpt (specGhost t ws a.seen true))
   let m := ";".intercalate a.mout.reverse ++ mtail
@@ -130,13 +162,17 @@ def step (line : String) : String :=
     match line.splitOn "|" with
     | [hdr, body] =>
       match words hdr with
-      | tf :: wf :: _ =>
+      | tf :: wf :: rest =>
+        let names : List Nat := match rest.filterMap (field? "h=") with
+          | n :: _ => n.toList.map Char.toNat
+          | [] => []
+        let key : Nat → Nat := fun b => names.getD b b
         match (field? "t=" tf).bind natList?, (field? "w=" wf).bind natList? with
         | some par, some ws =>
           let cmds := ((body.splitOn ";").filter (· ≠ "")).mapM parseOp?
           match cmds with
           | some cmds =>
-            if par.isEmpty || ws.isEmpty then "bad-op" else runCase ⟨par⟩ ws cmds
+            if par.isEmpty || ws.isEmpty then "bad-op" else runCase key ⟨par⟩ ws cmds
           | none => "bad-op"
         | _, _ => "bad-op"
       | _ => "bad-op"
